@@ -717,6 +717,22 @@ impl<C: SimColor> SimDisplay<C> {
         if let Some(e) = st.fail_at_start() {
             return Err(e);
         }
+        // Two ways a driver walks the pixel stream: an external `next()` loop, or internal iteration
+        // (`pixels.for_each(..)`, which runs the iterator's `fold`). The second style is used by the
+        // DrainBounded and SkipHidden devices whenever no mid-stream fault is planned for this call
+        // (a fault needs the loop so that it can stop after j items).
+        let fault_here = matches!(st.fault, Some(f) if f.at_call == st.n_calls && f.at_item.is_some());
+        if matches!(st.disc, Discipline::DrainBounded | Discipline::SkipHidden) && !fault_here && !st.budget_exceeded {
+            pixels.for_each(|Pixel(p, c)| {
+                let c = c.to_u32();
+                st.note_item(p.x, p.y, c);
+                st.store(p.x as i64, p.y as i64, c);
+            });
+            if st.cur_valid {
+                st.calls[st.cur].stream_ended = true;
+            }
+            return Ok(());
+        }
         let mut pulled = 0u64;
         loop {
             if let Some(e) = st.fail_at_item(pulled) {
